@@ -1522,6 +1522,15 @@ class Interp:
                 # x.flags.writeable = False and friends: no effect on values (a later write to a read-only array is the program's own error)
                 import types as _types
                 return _types.SimpleNamespace(writeable=True, c_contiguous=True, f_contiguous=False, owndata=True)
+            if name == "view":
+                # x.view(subtype): an instance of the subclass over the same values (view casting, the other way next to ndarray.__new__ to make the instance);
+                # x.view(np.ndarray) / x.view(): the plain array
+                def _view(*a, v=v, **k):
+                    t = a[0] if a else k.get("type")
+                    if isinstance(t, ClassRef):
+                        return Obj(t.cls, to_obj(v))
+                    return v
+                return _view
             raise Unsupported("ndarray.%s" % name)
         if isinstance(v, Rat):
             if name == "real":
